@@ -25,8 +25,10 @@ import (
 // answered late) are handled concurrently; every interleaving at lock granularity is explored.
 type compClient struct{ p *pool.Pool }
 
-func (c *compClient) AcquireMessage(ctx context.Context) *pool.Message { return c.p.AcquireMessage(ctx) }
-func (c *compClient) ReleaseMessage(m *pool.Message)                   { c.p.ReleaseMessage(m) }
+func (c *compClient) AcquireMessage(ctx context.Context) *pool.Message {
+	return c.p.AcquireMessage(ctx)
+}
+func (c *compClient) ReleaseMessage(m *pool.Message) { c.p.ReleaseMessage(m) }
 
 // dupAt: the block number delivered by two goroutines at once; blocks: number of blocks of the upload
 func componentScenario(blocks, dupAt int, preempt int) *mcx.Scenario {
